@@ -40,11 +40,24 @@ PrecWhy(e) ==
     ELSE IF e.rejected THEN <<"valid settings rejected">>
     ELSE <<"effective settings differ", {s \in Settings : e.observed[s] # Effective(e.flags, e.file)[s]}>>
 
+\* `init` writes the settings into a configuration document: unsupported library / missing project path must be
+\* rejected before anything is written (document, custom file, bindings); valid settings must be accepted
+InitOk(e) ==
+    IF e.library \notin Supported \/ e.project = "missing"
+    THEN e.rejected /\ ~e.mutated
+    ELSE ~e.rejected /\ e.mutated
+InitWhy(e) ==
+    IF e.library \notin Supported \/ e.project = "missing"
+    THEN <<"init must reject before anything is written", "rejected", e.rejected, "mutated", e.mutated>>
+    ELSE <<"valid init rejected or without effect", "rejected", e.rejected, "mutated", e.mutated>>
+
 Judge(e) == CASE e.event = "ConfigSaved" -> SavedOk(e)
+              [] e.event = "InitRun"     -> InitOk(e)
               [] e.event = "Precedence"  -> PrecOk(e)
               [] OTHER -> FALSE
 Why(e) == CASE e.event = "ConfigSaved" -> SavedWhy(e)
             [] e.event = "Precedence"  -> PrecWhy(e)
+            [] e.event = "InitRun"     -> InitWhy(e)
             [] OTHER -> <<"unknown event">>
 
 TraceInit == l = 1
